@@ -25,6 +25,8 @@ type upIface struct {
 	want     int
 	send     []byte
 	got      chan []byte
+	// how long the handler waits for the payload (0 = 3 s)
+	readTimeout time.Duration
 }
 
 func (u *upIface) VarlinkGetName() string { return "org.example.up" }
@@ -43,7 +45,11 @@ func (u *upIface) VarlinkDispatch(ctx context.Context, c varlink.Call, method st
 			return err
 		}
 	}
-	rctx, cancel := context.WithTimeout(ctx, 3*time.Second)
+	rt := u.readTimeout
+	if rt == 0 {
+		rt = 3 * time.Second
+	}
+	rctx, cancel := context.WithTimeout(ctx, rt)
 	defer cancel()
 	u.got <- readN(rctx, c.Conn, u.want, u.bufSizes)
 	return fmt.Errorf("upgraded connection finished")
